@@ -133,6 +133,10 @@ func tar(ctx context.Context, enc FormatEncoder, fs *fsBufReader, f *File) (n in
 			// CaFormatFilename - Write the filename element, then recursively encode
 			// the items in the directory
 			name := path.Base(f.Name)
+			if name == "." || name == ".." || name == "/" {
+				// e.g. a tar stream that has a member for its root, with a root added
+				return n, fmt.Errorf("'%s' is not a valid name for an entry in a directory", f.Path)
+			}
 			filename := FormatFilename{
 				FormatHeader: FormatHeader{Size: uint64(16 + len(name) + 1), Type: CaFormatFilename},
 				Name:         name,
